@@ -10,6 +10,7 @@ cleanup() { git -C /repo worktree remove --force "$WT"; }
 cd "$WT"
 if ! git apply "$OUT/patch.diff" 2>/dev/null && ! git apply --3way "$OUT/patch.diff" 2>/dev/null; then echo "CONFIRM: patch does not apply"; cleanup; exit 1; fi
 git reset -q
+git diff > /tmp/confirm.$$.patch
 if ! go build ./... ; then echo "CONFIRM: build fails"; cleanup; exit 1; fi
 if ! go test -vet=off -count=1 ./... > /tmp/confirm.$$.log 2>&1; then echo "CONFIRM: suite fails with patch"; grep -v "^ok\|no test files" /tmp/confirm.$$.log | head; rm -f /tmp/confirm.$$.log; cleanup; exit 1; fi
 rm -f /tmp/confirm.$$.log
@@ -23,7 +24,7 @@ if ! go test -vet=off -count=1 -run "$RUN" "./$DEST/" > /tmp/confirm.$$.d2 2>&1;
 rm -f /tmp/confirm.$$.d2
 cleanup; cd /
 cd /; mkdir -p /verif/seeded/$NAME
-cp "$OUT/patch.diff" /verif/seeded/$NAME/patch.diff
+cp /tmp/confirm.$$.patch /verif/seeded/$NAME/patch.diff; rm -f /tmp/confirm.$$.patch
 cp "$DEMO" /verif/seeded/$NAME/$(basename "$DEMO")
 python3 - "$OUT/meta.json" "/verif/seeded/$NAME/meta.json" "$DEST" "$RUN" <<'PY'
 import json,sys
